@@ -828,7 +828,30 @@ pub fn c16_strategy(transports: BoxedStrategy<Transport>) -> BoxedStrategy<ConvC
             let case0 = ConvCase { conv, progs, script: vec![], transport };
             let exp = crate::conv::expect(&case0);
             let total = total_len(&case0.conv);
-            let script = vec![Step::Send { from: 0, to: total }, Step::AwaitFinals(exp.msgs.len()), Step::AwaitEof];
+            // the offending line may be the last thing the client sends: it then waits for the verdict
+            // with its connection open, or half-closes
+            let rd = render(&case0.conv);
+            let off_pos = match &case0.conv.reqs[at].mal {
+                Some(Malform::HeaderNoColon { at, .. }) | Some(Malform::WsBeforeName { at, .. }) | Some(Malform::WsInName { at, .. }) | Some(Malform::WsBeforeColon { at, .. }) => Some(*at),
+                _ => None,
+            };
+            let cut_mode = (text.len() * 5 + headers.len() * 11 + n * 7 + kind as usize) % 4;
+            let line_end = off_pos.and_then(|p| {
+                let from = rd.ranges[at].start;
+                let mut seen = 0;
+                let b = &rd.bytes[from..rd.ranges[at].head_end];
+                (0..b.len().saturating_sub(1)).find(|i| {
+                    if b[*i] == b'\r' && b[*i + 1] == b'\n' {
+                        seen += 1;
+                    }
+                    seen == p + 2
+                }).map(|i| from + i + 2)
+            });
+            let script = match (cut_mode, line_end) {
+                (1, Some(e)) => vec![Step::Send { from: 0, to: e }, Step::AwaitFinals(exp.msgs.len()), Step::AwaitEof],
+                (2, Some(e)) => vec![Step::Send { from: 0, to: e }, Step::HalfClose],
+                _ => vec![Step::Send { from: 0, to: total }, Step::AwaitFinals(exp.msgs.len()), Step::AwaitEof],
+            };
             ConvCase { script, ..case0 }
         })
         .boxed()
